@@ -123,12 +123,54 @@ pub fn dump<F: Read + Seek>(cf: &mut cfb::CompoundFile<F>, dict: &Dict, full: bo
 }
 
 /// Opens a copy of `bytes` in the given mode and dumps it.
+static TMPDIR: std::sync::OnceLock<String> = std::sync::OnceLock::new();
+/// Directory for the files behind the path-based constructors (set once by the driver; without it they are not used).
+pub fn set_tmpdir(p: &str) {
+    let _ = TMPDIR.set(p.to_string());
+}
+
+/// The path-based spellings of "open": the bytes are written to a file, which is opened by path (read-only or read-write).
+fn open_by_path(bytes: &[u8], strict: bool, rw: bool, k: usize) -> Option<std::io::Result<cfb::CompoundFile<std::fs::File>>> {
+    let dir = TMPDIR.get()?;
+    let path = std::path::Path::new(dir).join(format!("reopen_{}_{}.cfb", std::process::id(), k));
+    std::fs::write(&path, bytes).ok()?;
+    let mut o = cfb::OpenOptions::new();
+    if strict {
+        o = o.strict();
+    }
+    let r = if rw { o.open_rw(&path) } else { o.open(&path) };
+    // (unlinked at once: the open handle keeps the file alive)
+    let _ = std::fs::remove_file(&path);
+    Some(r)
+}
+
+fn dump_of<F: std::io::Read + std::io::Seek>(opened: std::io::Result<cfb::CompoundFile<F>>, dict: &Dict) -> Value {
+    match opened {
+        Err(e) => json!({"err": err_kind(&e), "msg": e.to_string()}),
+        Ok(mut cf) => {
+            let ver = match cf.version() {
+                cfb::Version::V3 => 3,
+                cfb::Version::V4 => 4,
+            };
+            let mut d = dump(&mut cf, dict, false);
+            d["ver"] = json!(ver);
+            json!({"ok": d})
+        }
+    }
+}
+
 pub fn reopen_dump(bytes: &[u8], strict: bool, dict: &Dict) -> Value {
     let cur = std::io::Cursor::new(bytes.to_vec());
     let r = std::panic::catch_unwind(std::panic::AssertUnwindSafe(|| {
         // every spelling of "open strictly" / "open permissively" the API offers, in turn: they must mean the same
         static SPELLING: std::sync::atomic::AtomicUsize = std::sync::atomic::AtomicUsize::new(0);
         let k = SPELLING.fetch_add(1, std::sync::atomic::Ordering::Relaxed);
+        // every tenth time through a real file opened by path (read-only and read-write constructors, with the same options)
+        if k % 10 == 9 && bytes.len() <= 1 << 20 {
+            if let Some(r) = open_by_path(bytes, strict, (k / 10) % 2 == 0, k) {
+                return dump_of(r, dict);
+            }
+        }
         let opened = if strict {
             match k % 4 {
                 0 => cfb::CompoundFile::open_strict(cur),
